@@ -8,7 +8,7 @@ import shutil
 from .. import tlc
 from ..core import PY, VERIF, NCPU, MachineryError, Verdict, repo_env, run_group, scratch, parallel_jobs
 
-TOPOS = ["LSN", "USN", "CDN", "LDN", "UDN", "CDN_UO", "LDN_UO", "UDN_UO", "CORE", "LIM"]
+TOPOS = ["LSN", "USN", "CDN", "LDN", "UDN", "CDN_UO", "LDN_UO", "UDN_UO", "CORE", "LIM", "XPT"]
 NSEG = {"LSN": 2, "USN": 2, "CDN": 2, "CDN_UO": 2, "LDN": 3, "UDN": 3, "LDN_UO": 3, "UDN_UO": 3, "CORE": 1, "LIM": 1, "XPT": 2}
 NREG = {"LSN": 3, "USN": 3, "CDN": 6, "CDN_UO": 6, "LDN": 6, "UDN": 6, "LDN_UO": 6, "UDN_UO": 6, "CORE": 1, "LIM": 1, "XPT": 4}
 
